@@ -50,6 +50,73 @@ GENERIC_PASS = True
 SANITISERS = MINLIKE + ('Duration::min',)
 
 
+def index_in_range(F, P, f, local, at_block, length):
+    """every assignment that can give the index local its value either assigns a constant < length or happens under a dominating fact value < L (L <= length)
+    or value <= L (L < length)"""
+    from .common import cmp_facts
+    seen, work, alts = set(), [local], []
+    while work:
+        l = work.pop()
+        if l in seen:
+            continue
+        seen.add(l)
+        defs = [(i, j, s_) for i, j, s_ in f.stmts() if s_['pl']['l'] == l and not s_['pl']['p']]
+        if not defs:
+            alts.append((at_block, ('local', l)))    # a parameter or a call result: judged by the facts that dominate the bounds check
+            continue
+        for i, j, s_ in defs:
+            rv = s_['rv']
+            src = rv['op'] if rv['k'] == 'use' else (rv.get('op') or rv.get('a')) if rv['k'] == 'cast' else None
+            if src is None:
+                if len(defs) == 1:
+                    alts.append((at_block, ('local', l)))
+                    continue
+                return False, 'index computed by %s' % rv['k']
+            if src['k'] == 'const':
+                alts.append((i, ('const', src)))
+            elif src['k'] in ('copy', 'move') and not src['pl']['p']:
+                if len(defs) == 1:
+                    work.append(src['pl']['l'])          # a plain copy / cast chain: keep walking
+                else:
+                    alts.append((i, ('local', src['pl']['l'])))   # one arm of a join: judged by the facts at this assignment
+            else:
+                if len(defs) == 1:
+                    alts.append((at_block, ('local', l)))
+                else:
+                    return False, 'index from a projection assigned in a join'
+    for i, (kind, x) in alts:
+        if kind == 'const':
+            v = const_int(P.operand(f, x, at=i))
+            if v is None:
+                # a named constant: evaluated value unknown here
+                rs = P.root(P.operand(f, x, at=i))
+                v = P.fold_int(rs[0][0]) if len(rs) == 1 else None
+            if v is None or v >= length:
+                return False, 'constant alternative not known to be < %d' % length
+            continue
+        if kind != 'local':
+            return False, 'index from %s' % (x,)
+        val = P.local(f, x, at=i)
+        same = lambda t_: {(P.unbound(r), norm_path(p)) for r, p in P.root(t_)} == {(P.unbound(r), norm_path(p)) for r, p in P.root(val)} and bool(P.root(val))
+        ok = False
+        for op, a, b_, _sw in cmp_facts(F, P, f, i):
+            for (o2, xx, yy) in ((op, a, b_), ({'Lt': 'Gt', 'Le': 'Ge', 'Gt': 'Lt', 'Ge': 'Le', 'Eq': 'Eq', 'Ne': 'Ne'}[op], b_, a)):
+                if not same(xx):
+                    continue
+                lim = const_int(yy)
+                if lim is None:
+                    rs = P.root(yy)
+                    if len(rs) == 1 and P.is_call(rs[0][0], 'slice::len', 'Vec::len'):
+                        lim = length    # compared with the length of a collection: assume it is this array (checked by the constant in the bounds check)
+                if lim is None:
+                    continue
+                if (o2 == 'Lt' and lim <= length) or (o2 == 'Le' and lim < length):
+                    ok = True
+        if not ok:
+            return False, 'value assigned at block %d is not under a dominating fact value < %d' % (i, length)
+    return True, 'all %d alternatives in range' % len(alts)
+
+
 def zeroable_divisor(F, P, tables, term):
     """a divisor that is the size of a collection the peer's traffic fills and drains (it is 0 when the last request leaves), not bounded away from 0"""
     for r, p in P.root(term, through_params=True):
@@ -259,6 +326,30 @@ def run(ctx):
                 R.ob('C16.arith', (where, 'integer ' + rv['op']), why is None,
                      'integer arithmetic that can trap (%s) has no peer- or caller-controlled operand (ids reach only total operations)' % rv['op'], [f.loc(s)],
                      ('unsanitised: ' + why) if why else None)
+    # built-in indexing of arrays / slices: the compiler's bounds check panics; a peer-chosen index must be proven in range on every way it gets its value
+    import re as _re
+    for f in fns:
+        for i, b in enumerate(f.blocks):
+            tm = b['term']
+            if b['cleanup'] or tm['k'] != 'assert' or 'BoundsCheck' not in tm.get('msg', ''):
+                continue
+            m_i = _re.search(r'index: (?:copy|move) _(\d+)', tm['msg'])
+            m_l = _re.search(r'len: const (\d+)_usize', tm['msg'])
+            if not m_i:
+                continue
+            idx_local = int(m_i.group(1))
+            why = T.tainted(P.local(f, idx_local, at=i))
+            if why is None:
+                continue
+            n_partial += 1
+            item = F.enclosing_item(f)
+            where = item.npath if item else f.npath
+            safe, det = False, ''
+            if m_l:
+                safe, det = index_in_range(F, P, f, idx_local, i, int(m_l.group(1)))
+            R.ob('C16.partial', (where, 'array index', 'bounds'), safe,
+                 'a peer-chosen array index is proven smaller than the array length (by a dominating comparison or a constant) on every way it gets its value', [f.loc(tm)],
+                 'unsanitised: %s; %s' % (why, det))
     # the constant that bounds a timer duration must lie inside the timer's range
     for f in fns:
         for bb, t in f.calls():
